@@ -34,6 +34,8 @@ ASSUMPTIONS = ["float64 CPU, 1 thread", "scf_eps 1e-10 (SCF noise is 2-3 orders 
                "excited-state force comparison only when the active root is >= 0.05 eV from its neighbours"]
 REQUIRED_MONITORS = ["rows_compared", "padding_only_pairs", "swap_pairs", "cis_rows_compared", "md_rows_compared",
                      "sp2_calls", "perm_layouts", "parser_calls_checked"]
+# thorough tier: cases not started after this many seconds are skipped and reported (env override for smoke tests)
+BUDGET_S = {"thorough": float(__import__("os").environ.get("VERIF_C05_BUDGET", "1700"))}
 CASE_TIMEOUT = 900.0
 
 EPS = 1e-10
@@ -140,8 +142,9 @@ def gen_cases(tier, seed):
                             [None, ["angular", 1], ["linear", 2], ["angular", 3]][(i // 4) % 4], bool(i % 2)))
         cis_plan = []
         for i in range(48):
-            cis_plan.append((["AM1", "PM3", "MNDO"][i % 3], ["homog", "mixed"][(i // 3) % 2], 2 + i % 3, i % 4,
-                             1 if (i % 8 == 0) else 0))
+            mode = ["homog", "mixed"][(i // 3) % 2]
+            # an excited active state (analytical S_k gradient) is documented to need a homogeneous batch (C18's guard)
+            cis_plan.append((["AM1", "PM3", "MNDO"][i % 3], mode, 2 + i % 3, i % 4, 1 if (i % 4 == 0 and mode == "homog") else 0))
         sp_plan = []
         combos = []
         for method in ("AM1", "PM3", "MNDO", "PM6_SP"):
@@ -411,10 +414,13 @@ def _sp2_mech(case, mols, row=None):
     return None
 
 
-def _pulay_mech(case, member, alt_cache, sett_fn, e_batch, tolE, innocent):
+def _pulay_mech(case, member, alt_cache, sett_fn, e_batch, tolE, innocent, P_row=None):
     """classifier for the batch-global DIIS reset: Pulay cell, the row had its DIIS history reset on behalf of
-    another row, and the value it reached is a *different self-consistent solution of the same molecule*
-    (it equals what the molecule gives alone under another solver path)."""
+    another row, and the value it reached is a *different self-consistent solution of the same molecule*: either it
+    equals what the molecule gives alone under another solver path, or the molecule alone, restarted from the batch
+    row's density with plain iteration (no mixing, no DIIS), stays converged at the batch value."""
+    from vlib import run
+
     if case.get("sp2") or case["conv"][0] != 2 or innocent <= 0:
         return None
     key = (member["name"], tuple(np.round(member["X"].reshape(-1), 9)))
@@ -430,6 +436,15 @@ def _pulay_mech(case, member, alt_cache, sett_fn, e_batch, tolE, innocent):
         alt_cache[key] = vals
     if any(abs(e_batch - v) <= 100 * tolE for v in alt_cache[key]):
         return MECH_DIIS
+    if P_row is not None and not case.get("uhf"):
+        nb = (9 if case["method"] == "PM6" else 4) * len(member["Z"])
+        try:
+            o = run.single_point([member["Z"]], [member["X"].tolist()], sett_fn(dict(case, conv=[0, 0.0])),
+                                 charges=float(member["q"]), mult=float(member["mult"]), P0=np.asarray(P_row)[None, :nb, :nb])
+            if not _flag(o, 0) and abs(float(o["Etot"][0]) - e_batch) <= 100 * tolE:
+                return MECH_DIIS
+        except Exception:  # noqa: BLE001
+            pass
     return None
 
 
@@ -505,7 +520,7 @@ def _run_sp(case):
             def mech_fn(bad_keys, k=k, i=i, innocent=innocent, mols=mols, b=b):
                 if case.get("sp2"):
                     return _sp2_mech(case, mols, row=k)
-                return _pulay_mech(case, mems[i], alt_cache, _settings, float(b["Etot"][k]), tol["E"], innocent)
+                return _pulay_mech(case, mems[i], alt_cache, _settings, float(b["Etot"][k]), tol["E"], innocent, P_row=b["dm"][k])
 
             ok = _compare_row(acc, case, tol, alone[i], b, k, mems[i], "alone-vs-batch",
                               dict(det, diis_resets_on_behalf_of_other_rows=innocent) if diis_events else det,
@@ -776,6 +791,7 @@ def _run_md(case):
     from vlib.mon_c05 import arrays_identical
 
     acc = _Acc()
+    alt_cache = {}
     mems = [_member(m) for m in case["members"]]
     vels = [_velocities(m, case["vel_seed"] + 13 * k, case["zero_momentum"]) for k, m in enumerate(mems)]
     cell = "md/%s/remove_com=%s/pad=+%d/padval=%s/zeroP=%s" % (case["method"], case["remove_com"], case["pad"], case["padval"],
@@ -791,7 +807,11 @@ def _run_md(case):
         M = len(S[0])
         Vb = [np.vstack([vels[k], np.zeros((M - len(vels[k]), 3))]).tolist() for k in range(len(mems))]
         mon_b = {}
+        dw = _G.get("diis")
+        if dw:
+            dw.clear_cum()
         molb = _md_run(case, S, C, Vb, mems, os.path.join(d, "b"), mon_b)
+        innocent = dict(dw.cum_innocent) if dw else {}
         batch = [_read_h5(os.path.join(d, "b.%d.h5" % k)) for k in range(len(mems))]
         fam = None
         if case.get("padfam") and any(0 in row for row in S):
@@ -809,14 +829,33 @@ def _run_md(case):
             acc.viol.append({"clause": "md-row-shape", "mech": None, "detail": dict(det, row=k, alone=list(a["x"].shape), batch=list(b["x"].shape))})
             continue
         acc.count("md_steps_compared", len(a["steps"]))
+        bad, loc = {}, {}
         for key, t, name in (("x", TOL_MD_X, "coordinates"), ("v", TOL_MD_V, "velocities"), ("f", A_F, "forces"),
                              ("Ep", TOL_MD_E, "Ep"), ("Ek", TOL_MD_E, "Ek"), ("T", 1e-4, "T")):
             dd = np.abs(a[key] - b[key])
             dmax = float(dd.max())
-            if acc.upd("md_d_" + name, dmax, t):
-                step = int(np.argmax(dd.reshape(len(dd), -1).max(axis=1)))
-                acc.viol.append({"clause": "md-alone-vs-batch:" + name, "mech": None,
-                                 "detail": dict(det, row=k, mol=m["name"], value=dmax, first_bad_step=step)})
+            loc["md_d_" + name] = dmax / t if dmax == dmax else float("inf")
+            if not (dmax <= t):
+                bad[name] = {"value": dmax, "first_bad_step": int(np.argmax(dd.reshape(len(dd), -1).max(axis=1) > t))}
+        mech = None
+        if bad:
+            # the MD settings use the Pulay solver: same classifier as in the single-point cells, applied to step 0
+            c2 = dict(case, conv=[2], sp2=None, grad="autodiff")
+            if abs(float(a["Ep"][0]) - float(b["Ep"][0])) > A_E:
+                P_row = None
+                try:
+                    b0 = _run(S, C, _settings(c2), mems)          # the batch's step-0 SCF, repeated as a single point
+                    if abs(float(b0["Etot"][k]) - float(b["Ep"][0])) <= A_E:
+                        P_row = b0["dm"][k]
+                except Exception:  # noqa: BLE001
+                    pass
+                mech = _pulay_mech(c2, m, alt_cache, _settings, float(b["Ep"][0]), A_E, innocent.get(k, 0), P_row=P_row)
+            acc.viol.append({"clause": "md-alone-vs-batch", "mech": mech,
+                             "detail": dict(det, row=k, mol=m["name"], differences=bad, Ep0_alone=float(a["Ep"][0]),
+                                            Ep0_batch=float(b["Ep"][0]), diis_resets_on_behalf_of_other_rows=innocent.get(k, 0))})
+        if not (bad and mech):
+            for name, r in loc.items():
+                acc.margins[name] = max(acc.margins.get(name, 0.0), r)
         if fam is not None:
             acc.count("padding_only_pairs")
             diff = [key for key in ("x", "v", "f", "Ep", "Ek", "T") if not arrays_identical(batch[k][key], fam[k][key])]
